@@ -22,7 +22,7 @@ CHECKS = {
          'configuration product (storage knobs x engines) over exhaustively enumerated sparse program families vs a reference machine incl. final memory',
          'Every program of a two-segment family whose far segment sits at page edges, page-cache aliases, the flat-window '
          'edge, 2^40/2^57 and the top of the address space, the w=64 fill-constant family a slice of the single-segment images, ops exactly at / after the input bit, '
-         'images and chains through 33..131 scattered 16K-word pages (page-table growth, cache-slot pressure; also with a second segment in every page and segment tables in three non-ascending orders), run under every storage configuration (flat, hybrid windows cut at every word around each boundary, forced '
+         'images and chains through 33..131 scattered 16K-word pages (page-table growth, cache-slot pressure; also with a second segment in every page and segment tables in three non-ascending orders), programs whose low segment covers three whole pages below the flat window with the far segment in a colliding page, run under every storage configuration (flat, hybrid windows cut at every word around each boundary, forced '
          'paged, env window, measurement loop, ring lengths 1/2/3/65) and every engine; cause, op count, fault address, IO '
          'calls, last-ops list and the final content of every touched in-segment word must equal the reference machine.',
          'Trusts R1; explicit flat windows are capped at 2^24 words; ops straddling bit 2^64 at w=64 are excluded here '
@@ -56,7 +56,7 @@ CHECKS = {
          'on 11 engine/storage modes: returned values, later program behaviour and final memory must equal R1 extended with the '
          'documented DeviceMemory semantics. The screen decoder is searched at byte level (every byte string to depth 8/9) and at '
          'command level (all sequences of up to 3/4 commands over ~60 commands, and all mode-switch streams of up to 5/6 commands over 3 modes, 2 palettes and 4 presenters) against a model written from the docstring; the '
-         'the model streams also contain steps in which the program rewrites the palette / the framebuffer in place between two device commands; two repository screen programs and a third one that flips pixels and palette bytes between presents must present identical frames on every mode, incl. hybrid storage whose flat window ends inside the framebuffer / the palette.',
+         'every model stream is also fed to a second device that is looked at only at the end; the model streams also contain steps in which the program rewrites the palette / the framebuffer in place between two device commands; two repository screen programs and a third one that flips pixels and palette bytes between presents must present identical frames on every mode, incl. hybrid storage whose flat window ends inside the framebuffer / the palette.',
          'Device accesses outside segments, screens larger than 64 pixels and behaviour after a rejected stream are outside the bound.',
          'DESIGN.md section 3 C19'),
  'C06': ('exploration',
@@ -95,7 +95,7 @@ CHECKS = {
          'exhaustive enumeration of expression trees rendered with minimal parentheses, of literal notations and of resolution-stage partitions vs a reference evaluator',
          'Every ordered pair of the 19 binary operators in both nestings x operand triples, every unary x binary / unary x unary / '
          '?: x operator combination in every position, non-associative comparison chains (must be rejected), 1500 literal forms '
-         '(decimal/hex/binary, every printable char, every escape, all 256 \\xHH in both cases, strings up to 3 chars), and every '
+         '(decimal/hex/binary, literals of 100..4000 digits in each base, every printable char, every escape, all 256 \\xHH in both cases, strings up to 3 chars), and every '
          'pair tree x every partition of its three leaves into literal / constant / macro parameter / label / rep iterator '
          '(value must not depend on the resolution stage; every other rep case sits in a macro whose parameter is spelled like the iterator), negative ternary conditions at every stage, a bare label on either side of every operator, and ~1500 expressions of one program sharing four constants (using a constant under an operator never changes it; half of these programs are assembled next to the cached standard library by one process); each value is observed completely (320 bits + sign) through '
          'assembled op words and compared with Python-int evaluation.',
@@ -117,7 +117,7 @@ CHECKS = {
          'exhaustive error templates (error class x evaluation stage x width x version) and all single-token mutations of seed programs; outcome classification',
          '8 arithmetic faults (three with 20 000-bit operands) x 16 evaluation stages (parse-time folding, constant definition/use, macro argument, rep count / '
          'iterator, pad / segment / reserve argument, late label resolution in flip / jump / wflip / segment, $) and ~85 further '
-         'error templates (lexing, syntax, macros incl. recursion through rep, nesting right below / above the default depth, labels declared twice through expansions, diagnostics raised under a label-counted rep, every geometry of two / three overlapping segments, labels, constants, directives, ranges, files) at every width and version, '
+         'error templates (lexing, syntax, macros incl. recursion through rep, nesting right below / above the default depth, labels declared twice through expansions, wrong argument counts below / between / above several overloads, diagnostics raised under a label-counted rep, every geometry of two / three overlapping segments, labels, constants, directives, ranges, files) at every width and version, '
          'every sequence of <= 3 (4 thorough) primitive statements over a 16-statement alphabet, 45 long-token sources each in its own killable child process (a stall inside C code),  plus every deletion / duplication / swap / substitution (41-token alphabet) of every token of four seed programs (one '
          'with the stl): the outcome must be success or a FlipJumpException that is not the generic "Unknown exception" funnel '
          '(and names the offending identifier for templates that carry one), within 30 s, leaving no loadable output file.',
@@ -142,7 +142,7 @@ CHECKS = {
          'every vector length 3..20 (thorough ..40, 64, 130) over a boundary alphabet, w=64/32(/16). Every transition checks the '
          'destination value against the doc-comment formula, the documented exit, and that NO other word of the whole memory image '
          'changed (no stale carry / table state); every distinct scratch residue a block leaves is re-explored against every '
-         'operand tuple (closure), which decides arbitrary compositions; mixed block sequences are compared with the composed model. Table placement: the six truth tables allocated one by one (hex.tables.init_shared + hex.<t>.init) in every rotation of the library order, 0/256(/512/768) ops after a 1024-op boundary, all forms at n=2.',
+         'operand tuple (closure), which decides arbitrary compositions; mixed block sequences are compared with the composed model. Pending carries: each of the 16 values the documented single-hex hex.add_mul leaves pending, and a pending single-hex add carry, then each of mul10 / add_mul n / mul / add / sub / inc. Table placement: the six truth tables allocated one by one (hex.tables.init_shared + hex.<t>.init) in every rotation of the library order, 0/256(/512/768) ops after a 1024-op boundary, all forms at n=2.',
          'Trusts the transcription R6 (fjv/stlspec.py). Words 0..3 (no-flip sink, dummy variable at address 0, IO cells) are exempt from the frame. Scratch-heavy blocks (mul, div) hit the 24-residue cap (reported).',
          'DESIGN.md section 3 C04/C05'),
  'C05': ('model_checking',
@@ -193,14 +193,14 @@ CHECKS = {
          '2000 and 4000, programs defining top-level constants, programs behind a 1- or 2-file stl prefix with one to three user files, a 60 000-label program, a warning-raising program at a fixed path with and without warnings-as-errors, a rep-heavy program, the stl under other short names, a reduced stl built by trimming the list the public get_stl_paths() returned, another user short name, another directory) followed by twenty-four '
          'probe assemblies (different widths, versions, werror, programs using the constants\' names as labels, expressions nested 400 / 700 deep, a 600-term expression inside a macro with the default and a raised depth (F24), an invalid file list whose user file carries an stl short name, the failing inputs of the history again, an stl subset whose own parse raises warnings in the strict and the lenient mode), rotated so that every probe directly follows every last action: the .fjm and .fjd bytes of every probe must equal those of a brand-new '
          'interpreter process (two reference processes with different hash seeds and directories must agree as well).',
-         'Each history runs in a forked child of a parent that imported flipjump but never assembled. The process-global state key is reported, not used to merge histories.',
+         'Each history runs in a forked child of a parent that imported flipjump but never assembled; all assemblies of a process write to the same two output paths, over what the previous one left there. The process-global state key is reported, not used to merge histories.',
          'DESIGN.md section 3 C13'),
  'C15': ('model_checking',
          'exhaustive debugger sessions (all command scripts of bounded length x breakpoint subsets x programs) vs a debugger model over the reference machine trace',
          'About 4 million sessions: every script of <= 3 commands over a 34-command alphabet (thorough: also 4 commands over an 11-command core, one of each kind) (reads by label incl. labels spelled with hex digits only) (step, skip N incl. 0 / negative / '
          'garbage, continue, the three continue-all spellings incl. mixed case, reads of words / unaligned / unmapped addresses / hex, bit '
          'and byte variables over a data segment with distinctive bits, help, unknown commands, empty lines, quit; running out = EOF) x '
-         'every breakpoint subset of size <= 2 of the visited addresses + a never-visited one x 12 programs per width, through '
+         'every breakpoint subset of size <= 2 of the visited addresses + a never-visited one x 12 programs per width (one of them jumps into the lazily-zero tail of a long segment), through '
          'fjm_run.run(breakpoint_handler=...), plus sessions whose breakpoints are asked for by label (all subsets of 3 existing + 3 unknown labels) and by substring sets (incl. regular-expression metacharacters, single letters and common words) - twice on one debug-file path with other addresses -, sessions through the public wrapper flipjump.debug() (addresses / labels / substrings and every mix, also with no debug file and with an empty table), reads of the last word of the address space (a segment ends exactly at 2^w), and reads of the word the program will fault on: pause list (address, ops executed), values shown by reads, quit => keyboard-interrupt at '
          'the pause op count, otherwise output / IO calls / cause / op count / final memory equal the undebugged reference run.',
          'Messages are parsed only for addresses, op counts and values. Label / substring breakpoints are resolved in C16.',
@@ -210,7 +210,7 @@ CHECKS = {
          '193 option configurations (3 programs x -w x -v {absent,0,1,2,3} x -d {absent, path, bare} x --lzma_preset {absent,0,9} x -s; '
          'thorough adds w=16, --werror and all combinations) through `fj files -o`, `fj --asm -o` + `fj --run` (subprocesses of '
          'python -m flipjump.flipjump_cli on the working tree) and the Python API with the same explicit options: the three .fjm '
-         '(and .fjd) files must be byte-identical, header width/version as requested or defaulted, program output and termination '
+         '(and .fjd) files must be byte-identical (a -d PATH file must exist after every route), header width/version as requested or defaulted, program output and termination '
          'identical (a warning-raising program x --werror x -s x width x version; six spellings of one source path incl. a symlinked directory + `..`; every history of <= 3 API runs on the default terminal device vs fresh fj processes; the API routes run in a process where a caller has taken flipjump.get_stl_paths() and appended to / truncated / reversed its list); every ordered pair of five fj calls writing to one -o path (the second behaves as if alone); the verdicts of run_test_output / assemble_and_run_test_output over 4 endings x 7 expected causes x right / wrong output x raise / return; defaults observed directly: temporary file of the one-step flow is width 64 / version 1, with -o version 3, stl '
          'included unless --no_stl.',
          'The one-step temporary file is observed by wrapping flipjump_cli.TemporaryDirectory in-process.',
